@@ -536,7 +536,8 @@ class OutcomeCheck:
                         if self.relevant(d) and not known.match(fam.lines[i], d):
                             res["violations"].append({"prog": fam.lines[i], "deviation": d, "found_by": "search after correspondence mismatch"})
             for v in self.extra(ctx, fam, fam.lines):
-                res["violations"].append(v)
+                if not known.match(v["prog"], v["deviation"]):
+                    res["violations"].append(v)
         ndev = 0
         nknown = 0
         if fam_d is not None:
@@ -1523,6 +1524,9 @@ def tls_trace_check(fam, lines):
             tls_drop = {}
             lazy_init = {}
             lazy_drop = {}
+            lazy_ninit = {}
+            lazy_ndrop = {}
+            twice = None
             last_o = {}
             for pos, l in enumerate(ls):
                 w = l.split()
@@ -1537,13 +1541,19 @@ def tls_trace_check(fam, lines):
                         bad = f"thread-local {k[0]} of thread {k[1]} dropped twice or without initialisation"
                     tls_drop[k] = pos
                 elif w[0] == "I" and w[1] == "lazy":
-                    if int(w[2]) in lazy_init:
-                        bad = f"lazy static {w[2]} initialised twice in one execution"
-                    lazy_init[int(w[2])] = pos
+                    k = int(w[2])
+                    if lazy_ninit.get(k, 0) >= 1:
+                        # a second run of the initialiser in the same execution
+                        twice = f"lazy static {w[2]} initialised twice in one execution"
+                    lazy_ninit[k] = lazy_ninit.get(k, 0) + 1
+                    lazy_init.setdefault(k, pos)
                 elif w[0] == "D" and w[1] == "lazy":
-                    if int(w[2]) in lazy_drop or int(w[2]) not in lazy_init:
+                    k = int(w[2])
+                    lazy_ndrop[k] = lazy_ndrop.get(k, 0) + 1
+                    if lazy_ndrop[k] > lazy_ninit.get(k, 0):
                         bad = f"lazy static {w[2]} dropped twice or without initialisation"
-                    lazy_drop[int(w[2])] = pos
+                    if lazy_ndrop[k] == lazy_ninit.get(k, 0):
+                        lazy_drop[k] = pos
                 elif w[0] == "O":
                     b, pc = int(w[1]), int(w[2])
                     last_o[b] = pos
@@ -1570,8 +1580,8 @@ def tls_trace_check(fam, lines):
                 for k in lazy_init:
                     if k not in lazy_drop:
                         bad = f"lazy static {k} was not dropped at the end of the iteration"
-            if bad:
-                viol.append({"prog": lines[i], "deviation": "tls:" + bad, "iteration": n + 1})
+            if bad or twice:
+                viol.append({"prog": lines[i], "deviation": "tls:" + (bad or twice), "iteration": n + 1})
                 break
     return viol
 
